@@ -16,7 +16,7 @@ RULE = sqlmon.RULE_HISTORIES + ' Job DAGs: in-update and cross-update parents, r
 ASSUMPTIONS = sqlmon.COMMON_ASSUMPTIONS
 SHARDS = {'quick': 4, 'thorough': 16}
 TIMEOUT = {'quick': 900, 'thorough': 3600}
-FLOORS = {'jobs_with_parents_observed_live': 100, 'children_cancelled_by_failed_parent': 10, 'histories_free_of_known_patterns': 50}
+FLOORS = {'scripted_children_checked': 60, 'scripted_scenarios': 8, 'jobs_with_parents_observed_live': 100, 'children_cancelled_by_failed_parent': 10, 'histories_free_of_known_patterns': 50}
 
 
 class Deps(Monitor):
@@ -37,6 +37,95 @@ class Deps(Monitor):
                     ctx.count('children_cancelled_by_failed_parent')
 
 
+OUTCOMES = ['Success', 'Failed', 'Error', 'Cancelled-by-failed-grandparent', 'Cancelled-by-group-cancel']
+
+
+async def scripted(runner, w, fz, rng):
+    """directed prefix of a history: update 1 = {j1, j2 (child of j1, in group 1)}; the parent j2 reaches one of five outcomes; update 2 =
+    {j3 (absolute parent j2), j4 (always-run, absolute parent j2)} is committed before or after j2 becomes terminal."""
+    from batch.front_end.validate import validate_and_clean_jobs, validate_job_groups
+    from vf.world.world import userdata
+
+    ctx = runner.ctx
+    outcome = rng.choice(OUTCOMES)
+    commit_first = rng.random() < 0.4
+    ctx.seen('scripted_scenarios', f'{outcome}/{"commit-before-parent-terminal" if commit_first else "commit-after-parent-terminal"}')
+    user = 'alice'
+    ud = userdata(user)
+    fe = w.fe
+
+    def spec(i, **kw):
+        d = {'job_id': i, 'process': {'type': 'docker', 'command': ['true'], 'image': 'u'}, 'resources': {'cpu': '1', 'memory': 'standard', 'storage': '1Gi'}}
+        d.update(kw)
+        return d
+    bid = await fe._create_batch({'billing_project': 'bp-a', 'token': 'c05s', 'n_jobs': 2, 'n_job_groups': 1}, ud, w.db)
+    fz.batches[bid] = {'user': user, 'token': 'c05s', 'groups': {0, 1}, 'cancelled': set(), 'deleted': False}
+    u1, _, _ = await fe._create_batch_update(bid, 'c05s', 2, 1, user, w.db)
+    gs = [{'job_group_id': 1, 'absolute_parent_id': 0}]
+    validate_job_groups(gs)
+    await fe._create_job_groups(w.db, bid, u1, user, gs)
+    jobs = [spec(1), spec(2, in_update_parent_ids=[1], in_update_job_group_id=1)]
+    validate_and_clean_jobs(jobs)
+    await fe._create_jobs(ud, jobs, bid, u1, w.fe_app)
+    await fe._commit_update(w.fe_app, bid, u1, user, w.db)
+    await w.create_instance('standard', cores=16)
+
+    async def second_update():
+        u2, _, _ = await fe._create_batch_update(bid, 'c05s-2', 2, 0, user, w.db)
+        js = [spec(1, absolute_parent_ids=[2]), spec(2, absolute_parent_ids=[2], always_run=True)]
+        validate_and_clean_jobs(js)
+        await fe._create_jobs(ud, js, bid, u2, w.fe_app)
+        await fe._commit_update(w.fe_app, bid, u2, user, w.db)
+
+    async def run_job(jid, state):
+        await w.pools['standard'].scheduler.schedule_loop_body()
+        await fz._drain()
+        fz.sync_attempts_from_db()
+        for a in list(fz.attempts.values()):
+            row = w.engine.tables['attempts'].pk_get(a['batch_id'], a['job_id'], a['attempt_id'])
+            if a['batch_id'] == bid and a['job_id'] == jid and row is not None and row['end_time'] is None:
+                now = w.now_ms()
+                st = {'batch_id': bid, 'job_id': jid, 'attempt_id': a['attempt_id'], 'job_group_id': a.get('job_group_id', 0), 'state': state,
+                      'start_time': now, 'end_time': now + 1, 'status': {}, 'resources': []}
+                await w.dm.job_complete(fz._worker_request(fz._instance_of(a), {'status': st}))
+    if commit_first:
+        await second_update()
+    if outcome in ('Success', 'Failed', 'Error'):
+        await run_job(1, 'succeeded')
+        await run_job(2, {'Success': 'succeeded', 'Failed': 'failed', 'Error': 'error'}[outcome])
+    elif outcome == 'Cancelled-by-failed-grandparent':
+        await run_job(1, 'failed')
+        await w.canceller.cancel_cancelled_ready_jobs_loop_body()
+    else:
+        await run_job(1, 'succeeded')
+        await fe._cancel_job_group(w.fe_app, bid, 1)
+        fz.batches[bid]['cancelled'].add(1)
+        await w.canceller.cancel_cancelled_ready_jobs_loop_body()
+    if not commit_first:
+        await second_update()
+    from vf.world.oracles import View
+
+    v = View(w.engine)
+    j2, j3, j4 = v.jobs.get((bid, 2)), v.jobs.get((bid, 3)), v.jobs.get((bid, 4))
+    if j2 is not None and j3 is not None and j2['state'] in ('Success', 'Failed', 'Error', 'Cancelled'):
+        ctx.count('scripted_children_checked')
+        want_cancelled = j2['state'] != 'Success'
+        for j in (j3, j4):
+            if bool(j['cancelled']) != want_cancelled and j['state'] != 'Pending':
+                runner.violation('failed-parent-not-cancelling' if want_cancelled else 'child-cancelled-although-parent-succeeded',
+                                 f'scripted {outcome}: job {(bid, j["job_id"])} has cancelled={j["cancelled"]} although its parent ended {j2["state"]}', {'job': [bid, j['job_id']], 'outcome': outcome})
+
+
 def run(ctx):
+    from vf.world.patterns import Patterns
+    from vf.world.run import HistoryRunner
+
+    p = Patterns()
+    r = HistoryRunner(ctx, [p, Deps(p), sqlmon.EdgeMonitor(p, check_lifecycle=False)], cfg={'weights': dict(sqlmon.WEIGHTS_RUN), 'job_private': False},
+                      n_ops=ctx.pick(25, 40), setup=scripted)
+    for i, rng in ctx.cases(ctx.pick(30, 200), 'scripted'):
+        res = r.run_case(i, rng)
+        ops = res.get('ops', [])
+        ctx.case(sample={'scripted-prefix+ops': ops[:30]}, key=('scripted', i, tuple(ops)), nontrivial=True)
     sqlmon.standard_run(ctx, lambda p: [Deps(p), sqlmon.EdgeMonitor(p, check_lifecycle=False)],
-                        cfg={'parent_p': 0.8, 'weights': {'job_complete': 16, 'cancel_batch': 0.5, 'cancel_job_group': 1}})
+                        cfg={'parent_p': 0.8, 'weights': {'job_complete': 16, 'cancel_batch': 0.5, 'cancel_job_group': 1, 'cancel_ready': 5}})
